@@ -99,7 +99,9 @@ TrAcceptEnd ==
      ELSE IF E.res = "closed"
      THEN /\ Flag(IF closeStarted[E.h] THEN {} ELSE {"spurious-closed"})
           /\ UNCHANGED <<delivered, ndrift, closedAtSend>>
-     ELSE /\ ndrift' = ndrift + 1 /\ UNCHANGED <<delivered, vio, closedAtSend>>
+     ELSE \* an error other than "closed": drift, unless the driver made an accept fail in this scenario (fault injection)
+          /\ ndrift' = IF "injected" \in DOMAIN E /\ E.injected THEN ndrift ELSE ndrift + 1
+          /\ UNCHANGED <<delivered, vio, closedAtSend>>
   /\ acc' = [acc EXCEPT ![E.t] = [h |-> 0, after |-> FALSE]]
   /\ UNCHANGED <<closeStarted, closeDone, nsched, keyOf, itemKey, gap, closedAtSend>>
 
